@@ -1,4 +1,5 @@
 """Farm: C05, C06 (Farm.tla / FarmTrace.tla / harness/cmd/farm)."""
+import json, os
 from props import ModuleCheck, T
 
 FARM_CLAUSES_C05 = ["C05_StakeSum", "C05_Escrow", "C05_UnstakeNeverFails", "C05_UnstakeExact",
@@ -17,19 +18,39 @@ FARM_DIAGNOSTIC = ["X05_EscrowConservation", "X05_DepositsBacked", "X05_SupplyCl
 # gov hooks, legacy proposal route - /repo's own application has none of them, finding FG1); reimport=1: as-is
 # genesis round trips between blocks
 FARM_GOV_CFG = "users=2,rdenoms=2,proposers=2,initlp=4,initr=40,gov=1,reimport=1,maxprops=6,initcp=30"
+# MAGNITUDE TIER (technique a, exact scaling inside TLC).  strata=1: every history runs with all reward-denom
+# amounts (rates, budgets, top-ups, balances, community pool, escrows) multiplied by a factor rk and all LP amounts
+# by lpk*10^18/prec, cycling through the strata of harness/cmd/farm magStrata (rates from [2^31,2^32) to
+# [2^127,2^129), rate x span crossing 2^64 with both factors below it, LP stakes up to 2^128); the projection divides
+# by the factors and counts anything not exactly divisible (C05_ScaleExact), so the unchanged Farm.tla and every
+# C05/C06/C13 clause judge the real execution at magnitude.  Exact because the magnitude drivers keep model rates
+# multiples of lcm(1..max total stake): no accumulator or payout truncation occurs at either scale.
+FARM_MAG_CFG = "users=3,rdenoms=2,initlp=2,initr=20000,strata=1"
+FARM_MAG_GOV_CFG = "users=2,rdenoms=2,proposers=2,initlp=3,initr=20000,gov=1,initcp=8000,maxprops=4,strata=1"
+FARM_MAG_SCN = "users=3,rdenoms=2,initlp=3,initr=20000,prec=10"
 FARM_RND = T(
     [dict(n=12, len=25, procs=5, cfg="users=3,rdenoms=2,initlp=6,initr=60"),
      dict(n=12, len=30, procs=5, cfg="users=2,rdenoms=1,initlp=4,initr=40,prec=100,reimport=1"),
-     dict(n=10, len=30, procs=4, cfg=FARM_GOV_CFG)],
+     dict(n=10, len=30, procs=4, cfg=FARM_GOV_CFG),
+     dict(n=9, len=14, procs=2, cfg=FARM_MAG_CFG), dict(n=9, len=14, procs=1, cfg=FARM_MAG_GOV_CFG)],
     [dict(n=60, len=30, procs=7, cfg="users=3,rdenoms=2,initlp=6,initr=60"),
      dict(n=60, len=40, procs=7, cfg="users=2,rdenoms=1,initlp=4,initr=40,prec=100,reimport=1"),
      dict(n=60, len=40, procs=7, cfg=FARM_GOV_CFG),
-     dict(n=30, len=40, procs=4, cfg=FARM_GOV_CFG + ",burnpre=1,burnq=1,burnv=0,govdp=1,govvp=3")])
+     dict(n=30, len=40, procs=4, cfg=FARM_GOV_CFG + ",burnpre=1,burnq=1,burnv=0,govdp=1,govvp=3"),
+     dict(n=27, len=20, procs=7, cfg=FARM_MAG_CFG), dict(n=27, len=20, procs=5, cfg=FARM_MAG_GOV_CFG)])
 FARM_GEN_GOV_CFG = "users=2,rdenoms=2,proposers=2,initlp=3,initr=20,prec=10,gov=1"
+FARM_GEN_MAG_CFG = "users=2,rdenoms=1,initlp=3,initr=3000,prec=10"
 FARM_GEN = T([dict(cfg="GEN_Farm.cfg", num=20, depth=15, seeds=10),
-              dict(cfg="GEN_FarmGov.cfg", num=20, depth=24, seeds=4, driver_cfg=FARM_GEN_GOV_CFG)],
+              dict(cfg="GEN_FarmGov.cfg", num=20, depth=24, seeds=4, driver_cfg=FARM_GEN_GOV_CFG),
+              # magnitude: TLC-generated behaviours (rates 60/120 per block) executed with rates in [2^63,2^64):
+              # rate x span wraps a 64-bit word from a span of 2 blocks on
+              dict(cfg="GEN_FarmMag.cfg", num=20, depth=15, seeds=2, driver_cfg=FARM_GEN_MAG_CFG + ",rk=169093200598693763")],
              [dict(cfg="GEN_Farm.cfg", num=60, depth=17, seeds=14),
-              dict(cfg="GEN_FarmGov.cfg", num=60, depth=28, seeds=10, driver_cfg=FARM_GEN_GOV_CFG)])
+              dict(cfg="GEN_FarmGov.cfg", num=60, depth=28, seeds=10, driver_cfg=FARM_GEN_GOV_CFG),
+              dict(cfg="GEN_FarmMag.cfg", num=60, depth=17, seeds=5, driver_cfg=FARM_GEN_MAG_CFG + ",rk=169093200598693763"),
+              dict(cfg="GEN_FarmMag.cfg", num=60, depth=17, seeds=5, driver_cfg=FARM_GEN_MAG_CFG + ",rk=16666666666666667"),
+              dict(cfg="GEN_FarmMag.cfg", num=60, depth=17, seeds=5,
+                   driver_cfg=FARM_GEN_MAG_CFG + ",rk=5671372782015648997643561488564147477,lpk=3402823669209384634633")])
 FARM_SCN = [dict(file="scenarios/farm_F2.ndjson", cfg="users=2,rdenoms=1,initlp=3,initr=20,prec=10"),
             dict(file="scenarios/farm_F3.ndjson", cfg="users=3,rdenoms=2,initlp=6,initr=60,prec=10"),
             # regression for fixed finding F30 (plain send to the module address before the account exists)
@@ -43,11 +64,88 @@ FARM_SCN = [dict(file="scenarios/farm_F2.ndjson", cfg="users=2,rdenoms=1,initlp=
             dict(file="scenarios/farm_gov_unwired.ndjson", cfg="users=2,rdenoms=2,initlp=3,initr=20,prec=10,gov=0,initcp=20"),
             # AdjustPool corners: before start, stranger, not editable, empty, unknown pool, one-denom top-up, last
             # block with nothing left to distribute (index panic before 3081448), after expiry
-            dict(file="scenarios/farm_adjust_corners.ndjson", cfg="users=2,rdenoms=2,initlp=3,initr=20,prec=10")]
+            dict(file="scenarios/farm_adjust_corners.ndjson", cfg="users=2,rdenoms=2,initlp=3,initr=20,prec=10"),
+            # magnitude: one pool harvested every block, one touched once after 30 blocks, top-up and rate change,
+            # another long gap, end-of-life refund - at 10^18 per block (rate x 30 >= 2^64), at a rate in [2^63,2^64)
+            # and at a rate of ~2^128 with LP stakes ~2^128 (the K=1 trace is byte-identical in model units)
+            dict(file="scenarios/farm_magnitude.ndjson", cfg=FARM_MAG_SCN + ",rk=16666666666666667"),
+            dict(file="scenarios/farm_magnitude.ndjson", cfg=FARM_MAG_SCN + ",rk=169093200598693763"),
+            dict(file="scenarios/farm_magnitude.ndjson",
+                 cfg=FARM_MAG_SCN + ",rk=5671372782015648997643561488564147477,lpk=3402823669209384634633")]
 # MC_FarmGov: the proposal life cycle as a configuration of its own (one reward denom, two proposals sharing the
 # escrow, deposits / votes / cancellation / round trips, farmer operations on the created pool)
 FARM_MC = T([dict(cfg="MC_Farm.cfg", timeout=1500), dict(cfg="MC_FarmGov.cfg", timeout=600)],
             [dict(cfg="MC_Farm_big.cfg", timeout=3400), dict(cfg="MC_FarmGov_big.cfg", timeout=3000)])
+
+
+
+def _pow2(v):
+    return v.bit_length() - 1 if v > 0 else -1
+
+
+_STRATA = [(31, "<2^31"), (32, "[2^31,2^32)"), (53, "[2^32,2^53)"), (63, "[2^53,2^63)"), (64, "[2^63,2^64)"),
+           (65, "[2^64,2^65)"), (127, "[2^65,2^127)"), (129, "[2^127,2^129)"), (10 ** 9, ">=2^129")]
+
+
+def _stratum(v):
+    b = _pow2(v) + 1          # number of bits
+    for lim, name in _STRATA:
+        if b <= lim:
+            return name
+    return _STRATA[-1][1]
+
+
+def farm_magnitude_evidence(check, pid, tier, seed, work):
+    """Evidence of the magnitude tier: every release step (a pool update that accrued rewards) of every validated
+    trace, classified by the real magnitudes of its operands - the verdicts themselves come from the ordinary
+    trace validation (all clauses, unchanged specification)."""
+    allf = os.path.join(work, "all.ndjson")
+    strata = {"rate": {}, "rate_x_span": {}, "stake_total": {}, "budget": {}, "mixed_rate<2^64_product>=2^64": 0,
+              "mixed_remaining+topup_crosses_2^64": 0}
+    steps, samples, rk, lpk, unit, prev = 0, [], 1, 1, 10 ** 17, None
+    if not os.path.exists(allf):
+        return [], {}
+    with open(allf) as f:
+        for line in f:
+            r = json.loads(line)
+            if r["ev"]["name"] == "Init":
+                cfg = dict(kv.split("=", 1) for kv in r.get("cfg", "").split(",") if "=" in kv)
+                rk, lpk = int(cfg.get("rk", "1")), int(cfg.get("lpk", "1"))
+                unit = 10 ** 18 // int(cfg.get("prec", "10")) * lpk
+                prev = r["st"]
+                continue
+            st = r["st"]
+            if rk > 1 or lpk > 1:
+                for p, pool in (prev or {}).get("pools", {}).items():
+                    cur = st["pools"].get(p)
+                    if not cur:
+                        continue
+                    span = cur["lastH"] - pool["lastH"]
+                    for d, rule in pool["rules"].items():
+                        if r["ev"]["name"] == "AdjustPool" and r["ev"]["ok"] and r["ev"]["pool"] == p and d in r["ev"]["total"]:
+                            a, b = rule["remaining"] * rk, r["ev"]["total"][d] * rk
+                            if a < 2 ** 64 and b < 2 ** 64 and a + b >= 2 ** 64:
+                                strata["mixed_remaining+topup_crosses_2^64"] += 1
+                        if span <= 0 or pool["total"] <= 0:
+                            continue
+                        steps += 1
+                        rate, prod = rule["rpb"] * rk, rule["rpb"] * rk * span
+                        for key, v in (("rate", rate), ("rate_x_span", prod), ("stake_total", pool["total"] * unit),
+                                       ("budget", rule["totalR"] * rk)):
+                            n = _stratum(v)
+                            strata[key][n] = strata[key].get(n, 0) + 1
+                        if rate < 2 ** 64 <= prod:
+                            strata["mixed_rate<2^64_product>=2^64"] += 1
+                            if len(samples) < 3:
+                                samples.append({"event": r["ev"]["name"], "pool": p, "denom": d, "rate": str(rate),
+                                                "span": span, "released": str(prod), "stake_total": str(pool["total"] * unit)})
+            prev = st
+    return [], {"big_steps": steps, "big_strata": strata, "big_samples": samples,
+                "big_rule": "magnitude tier by exact scaling: release steps of real executions whose reward amounts are "
+                            "rk x and LP amounts lpk x 10^18/prec x the model's (factors in the Init line of each trace), "
+                            "validated by TLC against the unchanged Farm.tla (all C05/C06/C13 clauses + strict mode); "
+                            "C05_ScaleExact fails on any value not exactly divisible by its factor"}
+
 
 RECORD = [dict(binary="farm", n=T(3, 12), len=25, cfg="users=3,rdenoms=2,initlp=6,initr=60")]
 
@@ -55,18 +153,22 @@ PROPS = {
     "C05": ModuleCheck("farm", "Farm.tla", "FarmTrace.tla", "FarmTrace.cfg", FARM_CLAUSES_C05,
                        FARM_MC, FARM_GEN, FARM_RND, scenarios=FARM_SCN,
                        required=["unstake_ok", "stake_ok", "refund", "release", "payout", "cp_stake"],
-                       gen_cfg="users=2,rdenoms=1,initlp=3,initr=20,prec=10",
+                       gen_cfg="users=2,rdenoms=1,initlp=3,initr=20,prec=10", post=[farm_magnitude_evidence],
                        assumptions=["TLC 1.8, SANY, CommunityModules Json", "Go toolchain, cosmos-sdk x/bank",
-                                    "harness projection functions", "unit scaling of LP amounts (DESIGN 4.2)"]),
+                                    "harness projection functions", "unit scaling of LP amounts (DESIGN 4.2)",
+                                    "magnitude tier: exact scaling of reward and LP amounts (rates multiples of "
+                                    "lcm(1..max stake), so no truncation at either scale)"]),
     "C06": ModuleCheck("farm", "Farm.tla", "FarmTrace.tla", "FarmTrace.cfg", FARM_CLAUSES_C06,
                        FARM_MC, FARM_GEN, FARM_RND, scenarios=FARM_SCN,
                        # cp_*: a governance-funded pool was created, staked in, paid out and refunded to the community
                        # pool (scripted in scenarios/farm_gov_life.ndjson, so never missing unless the path broke)
                        required=["refund", "release", "payout", "adjust_ok", "destroy_ok",
                                  "cp_pass", "cp_payout", "cp_pool_refund"],
-                       gen_cfg="users=2,rdenoms=1,initlp=3,initr=20,prec=10",
+                       gen_cfg="users=2,rdenoms=1,initlp=3,initr=20,prec=10", post=[farm_magnitude_evidence],
                        assumptions=["TLC 1.8, SANY, CommunityModules Json", "Go toolchain, cosmos-sdk x/bank",
-                                    "harness projection functions", "unit scaling of LP amounts (DESIGN 4.2)"]),
+                                    "harness projection functions", "unit scaling of LP amounts (DESIGN 4.2)",
+                                    "magnitude tier: exact scaling of reward and LP amounts (rates multiples of "
+                                    "lcm(1..max stake), so no truncation at either scale)"]),
 }
 
 TEXT = {
